@@ -292,6 +292,18 @@ def run_case(desc):
                 jw = proj4.open_job(wrapped)
                 target = {"zz_w": v}
                 pairs_live = [(target, jw.id)]
+                # a synced-collection spelling denotes what its file holds NOW: the document is changed through a
+                # second handle of the same job, then the kept collection is used as a state point
+                # (the newer value differs by a key: a reload that meets a value comparing == to the one in memory keeps
+                # the latter — synced_collections' merge, open finding C04 tag 3 / C05 tag 2 — which is not C01's subject)
+                if others:
+                    newer = dict(v, zz_newer=1)
+                    signac.get_project(d4).open_job(id=owner.id).doc.params = newer
+                    try:
+                        pairs_live.append(({"zz_w": newer}, proj4.open_job({"zz_w": live}).id))
+                    except Exception as e:  # noqa
+                        pairs_live.append(({"zz_w": newer}, "open_job(live collection) raised " + type(e).__name__))
+                    signac.get_project(d4).open_job(id=owner.id).doc.params = v
                 # change the document afterwards
                 owner.doc.params = {"zz_changed": True}
                 try:
@@ -344,8 +356,12 @@ def run_case(desc):
             jm = signac.get_project(d5).open_job(id=jt.id) if len(inplace) % 2 else proj5.open_job(v)
             jm.init()
             try:
+                seen_before = calc_id(dict(jm.cached_statepoint))    # the read-only view is looked at before ...
+                ids.append(seen_before)
                 jm.sp[k] = o[k]
                 got = jm.id
+                # ... and after the change, through the same handle
+                inplace.append((o, calc_id(dict(jm.cached_statepoint))))
                 dirs = sorted(os.listdir(proj5.workspace))
                 later = signac.get_project(d5)
                 inplace += [(o, got), (o, dirs[0] if len(dirs) == 1 else "workspace holds %r" % dirs),
@@ -354,6 +370,18 @@ def run_case(desc):
                 ids.append(jm.id)
             except Exception as e:  # noqa
                 inplace.append((o, "in-place change of %r raised %s" % (k, type(e).__name__)))
+                break
+        # whole assignment of such a neighbour through a FRESH handle (opened by id in a new session, never read)
+        for o in same_keys[:2]:
+            try:
+                jf = signac.get_project(d5).open_job(id=jt.id)
+                jf.statepoint = json.loads(json.dumps(o))
+                inplace += [(o, jf.id), (o, calc_id(signac.get_project(d5).open_job(id=jf.id).statepoint()))]
+                jb = signac.get_project(d5).open_job(id=jf.id)
+                jb.statepoint = json.loads(json.dumps(v))
+                ids.append(jb.id)
+            except Exception as e:  # noqa
+                inplace.append((o, "assignment through a fresh handle raised %s" % type(e).__name__))
                 break
         others = others + inplace
     coq = ("{| c1_val := %s; c1_ftab := %s; c1_ids := %s; c1_file := %s; c1_others := %s |}" % (
